@@ -1,6 +1,7 @@
 """C53 — Genesis application is deterministic and representation-independent. Seeded genesis
 documents (balances incl. duplicates, 0-3 package deployments, calls, failing txs, cross-realm
-calls, sends, auth param overrides, InitialHeight 1/5) are applied by the real InitChainer in
+calls, sends, time/height-stamping calls, every genesis tx metadata shape (none, timestamp override, failed-on-source,
+historical with height override, provenance only), auth param overrides, InitialHeight 1/5) are applied by the real InitChainer in
 separate processes: twice in memory and twice streamed from disk (GenesisStateRef); every pair
 is held to spec/ReplayPair.tla (same app hash, same per-tx result bytes and gas, same state)."""
 import json, os, re, subprocess, concurrent.futures as cf, vlib, tracelib
@@ -46,6 +47,16 @@ def run(ctx):
     nontrivial = sum(1 for x in sums if x.get("tx_ok", 0) + x.get("tx_fail", 0) > 0)
     if tx_ok == 0 or tx_fail == 0 or nontrivial < 2:
         raise vlib.Inconclusive("VACUOUS", "generated genesis documents lack successful / failing txs (ok=%d fail=%d)" % (tx_ok, tx_fail))
+    # genesis tx metadata shapes (none / timestamp / failed / historical / provenance-only): the interesting documents
+    # are those where a tx WITHOUT some metadata field follows a tx that sets it
+    meta = {}
+    for x in sums:
+        for k, v in (x.get("metadata") or {}).items():
+            meta[k] = meta.get(k, 0) + v
+    ctx.cov["genesis_tx_metadata_shapes"] = meta
+    need = ["none", "timestamp", "failed", "historical"]
+    if any(not meta.get(k) for k in need):
+        raise vlib.Inconclusive("VACUOUS", "generated genesis documents lack a metadata shape: %s" % meta)
     remaining = pairs
     for _ in range(8):
         if not remaining:
